@@ -60,6 +60,8 @@ pub enum CKind {
     /// engine partial-liquidation ratio = 1/4
     PlrQuarter,
     VFluctTight,
+    /// fluctuation limit switched off
+    VFluctOff,
     /// undo of a re-wiring
     Unwire(u64),
     VRatios,
@@ -610,6 +612,11 @@ fn start_campaign(w: &World, r: &mut Rng, g: &mut GenCtx, vis: &[VInfo], ps: &[P
         g.plan.push_back(Plan::TraderOp { vi, who: Who::Id(victim), op: TOp::DepositToZero(k), block: Blk::Next });
         g.plan.push_back(Plan::TraderOp { vi, who: Who::Id(victim), op: TOp::Close, block: Blk::Same });
     }
+    if target < 0 && r.chance(1, 3) {
+        // an under-water position reversed by its owner (the reversal settles the shortfall with the trader; with fees
+        // larger than the shortfall the native bookkeeping of the required coins nets the two)
+        g.plan.push_back(Plan::TraderOp { vi, who: Who::Id(victim), op: TOp::Reverse, block: Blk::Next });
+    }
     g.plan.push_back(Plan::Liq { vi, victim, first: true });
     true
 }
@@ -1142,6 +1149,14 @@ fn config_msg(w: &World, r: &mut Rng, v: &VInfo, kind: CKind, legit: bool, trade
             }
             draft(own, m)
         }
+        CKind::VFluctOff => {
+            let own = w.vamm_owner(&v.addr);
+            let mut m = vcfg0(v.id);
+            if let Msg::VCfg { ufluct, .. } = &mut m {
+                *ufluct = Some(0);
+            }
+            draft(own, m)
+        }
         CKind::Unwire(what) => {
             let mut m = Msg::ECfg { uowner: None, uifd: None, ufp: None, uimr: None, ummr: None, uplr: None, ulf: None };
             if let Msg::ECfg { uowner, uifd, ufp, .. } = &mut m {
@@ -1301,6 +1316,18 @@ fn start_config(w: &World, r: &mut Rng, g: &mut GenCtx, vis: &[VInfo], ps: &[Pos
         g.plan.push_back(Plan::Config { vi, kind: CKind::VFluctTight, legit: true, trader });
         g.plan.push_back(Plan::TraderOp { vi, who: Who::Id(trader), op: TOp::Close, block: Blk::Next });
         g.plan.push_back(Plan::AlignOracle { vi });
+    }
+    if !holders.is_empty() && r.chance(1, 4) {
+        // a moderate funding settlement while the position is open, a SUCCESSFUL partial close (tight fluctuation limit,
+        // ratio 1/4), then — limit lifted — the remainder closed whole: the funding must be charged exactly once
+        g.plan.push_back(Plan::OracleSkew { vi, trader });
+        g.plan.push_back(Plan::FundingRound { vi });
+        g.plan.push_back(Plan::AlignOracle { vi });
+        g.plan.push_back(Plan::Config { vi, kind: CKind::PlrQuarter, legit: true, trader });
+        g.plan.push_back(Plan::Config { vi, kind: CKind::VFluctTight, legit: true, trader });
+        g.plan.push_back(Plan::TraderOp { vi, who: Who::Id(trader), op: TOp::Close, block: Blk::Next });
+        g.plan.push_back(Plan::Config { vi, kind: CKind::VFluctOff, legit: true, trader });
+        g.plan.push_back(Plan::TraderOp { vi, who: Who::Id(trader), op: TOp::Close, block: Blk::Next });
     }
     if !holders.is_empty() && r.chance(1, 3) {
         // a position closed by an equal-size reversal leaves a stored record of size zero; the next order on
@@ -1883,6 +1910,27 @@ pub fn gen_step(w: &World, r: &mut Rng, g: &mut GenCtx, k: u64, stats: &mut Stat
     let mut dr: Option<Draft> = None;
     for name in g.pending_stats.drain(..) {
         stats.count("campaign", &name);
+    }
+    // "charged exactly once": in an eighth of the histories (decided from (seed, h), no PRNG draw) a trader opens 3 % of the
+    // pool, funding is settled once against a skewed oracle, the position is PARTIALLY closed (tight fluctuation limit, ratio
+    // 1/4) and then — limit lifted — the remainder is closed whole
+    if k == 6 && g.plan.is_empty() && (w.cfg.seed.wrapping_mul(0x9E37_79B9).wrapping_add(w.cfg.h.wrapping_mul(0x85EB_CA6B)) >> 7) % 8 == 0 {
+        if let Some(v) = vis.iter().find(|v| v.usable()) {
+            let vi = v.idx;
+            let trader = TRADERS[(w.cfg.h % 4) as usize];
+            if !ps.iter().any(|p| p.v == v.id && p.t == trader) && !w.engine_paused() {
+                g.plan.push_back(Plan::OpenFrac { vi, trader, long: w.cfg.h % 2 == 0, frac_ppm: 30_000, high: false });
+                g.plan.push_back(Plan::OracleSkew { vi, trader });
+                g.plan.push_back(Plan::FundingRound { vi });
+                g.plan.push_back(Plan::AlignOracle { vi });
+                g.plan.push_back(Plan::Config { vi, kind: CKind::PlrQuarter, legit: true, trader });
+                g.plan.push_back(Plan::Config { vi, kind: CKind::VFluctTight, legit: true, trader });
+                g.plan.push_back(Plan::TraderOp { vi, who: Who::Id(trader), op: TOp::Close, block: Blk::Next });
+                g.plan.push_back(Plan::Config { vi, kind: CKind::VFluctOff, legit: true, trader });
+                g.plan.push_back(Plan::TraderOp { vi, who: Who::Id(trader), op: TOp::Close, block: Blk::Next });
+                stats.count("campaign", "charged_once");
+            }
+        }
     }
     if k == 2 && g.plan.is_empty() && vis.len() >= 4 && g.mode != Mode::Twin {
         let started = start_capacity(g, &vis);
